@@ -23,33 +23,80 @@ def gen_probes(rng, spec):
     comp = [i for i, ty in enumerate(schema) if ty["k"] in ("struct", "array")]
     urefs = [i for i, ty in enumerate(schema) if ty["k"] == "uref"]
     sc_in_arrays = sorted({schema[ty["item"]]["t"] for ty in schema if ty["k"] == "array" and schema[ty["item"]]["k"] == "sc"})
-    probes = []
-    for j in range(rng.randint(4, 9)):
-        args = []
-        for _ in range(rng.randint(1, 5)):
-            r = rng.random()
-            if r < 0.45:
-                args.append({"kind": "sc", "t": rng.choice(typegen.SCALARS)})
-            elif r < 0.75:
-                t = rng.choice(sc_in_arrays) if sc_in_arrays and rng.random() < 0.6 else rng.choice(typegen.SCALARS)
-                args.append({"kind": "ptr", "t": t, "const": rng.random() < 0.5, "k": rng.choice([1, 1, 2, 3])})
-            elif comp:
-                if urefs and rng.random() < 0.15:
-                    args.append({"kind": "obj", "type": rng.choice(urefs)})
-                else:
-                    args.append({"kind": "obj", "type": rng.choice(comp[-6:])})
+    return [_gen_one(rng, comp, urefs, sc_in_arrays, f"pk{j}") for j in range(rng.randint(4, 9))]
+
+
+def _gen_one(rng, comp, urefs, sc_in_arrays, name):
+    args = []
+    for _ in range(rng.randint(1, 5)):
+        r = rng.random()
+        if r < 0.45:
+            args.append({"kind": "sc", "t": rng.choice(typegen.SCALARS)})
+        elif r < 0.75:
+            t = rng.choice(sc_in_arrays) if sc_in_arrays and rng.random() < 0.6 else rng.choice(typegen.SCALARS)
+            args.append({"kind": "ptr", "t": t, "const": rng.random() < 0.5, "k": rng.choice([1, 1, 2, 3])})
+        elif comp:
+            if urefs and rng.random() < 0.15:
+                args.append({"kind": "obj", "type": rng.choice(urefs)})
             else:
-                args.append({"kind": "sc", "t": rng.choice(typegen.SCALARS)})
-        rt = rng.choice(typegen.SCALARS + [None])
-        ret = None
-        if rt is not None:
-            same = [i for i, a in enumerate(args) if a["kind"] == "sc" and a["t"] == rt]
-            if same and rng.random() < 0.6:
-                ret = {"t": rt, "arg": rng.choice(same)}
-            else:
-                ret = {"t": rt, "const": M.gen_scalar(rng, rt)["x"]}
-        probes.append({"name": f"pk{j}", "args": args, "ret": ret})
-    return probes
+                args.append({"kind": "obj", "type": rng.choice(comp[-6:])})
+        else:
+            args.append({"kind": "sc", "t": rng.choice(typegen.SCALARS)})
+    rt = rng.choice(typegen.SCALARS + [None])
+    ret = None
+    if rt is not None:
+        same = [i for i, a in enumerate(args) if a["kind"] == "sc" and a["t"] == rt]
+        if same and rng.random() < 0.6:
+            ret = {"t": rt, "arg": rng.choice(same)}
+        else:
+            ret = {"t": rt, "const": M.gen_scalar(rng, rt)["x"]}
+    return {"name": name, "args": args, "ret": ret}
+
+
+def cur_probes(w):
+    """The probe definitions in force (a c_rebuild re-registers a name with a new definition)."""
+    now = getattr(w, "probes_now", None)
+    if now is None:
+        now = w.probes_now = [dict(p) for p in (w.spec["c"].get("probes") or [])]
+    return now
+
+
+def gen_rebuild(gs, w):
+    """A kernel name that is already registered (and mostly already called) is registered again
+    with another signature and body: `add_kernels` a second time on the same context."""
+    rng = gs.rng
+    probes = cur_probes(w)
+    if not probes:
+        return None
+    schema = w.schema
+    comp = [i for i, ty in enumerate(schema) if ty["k"] in ("struct", "array")]
+    urefs = [i for i, ty in enumerate(schema) if ty["k"] == "uref"]
+    sc_in_arrays = sorted({schema[ty["item"]]["t"] for ty in schema if ty["k"] == "array" and schema[ty["item"]]["k"] == "sc"})
+    pi = rng.randrange(len(probes))
+    return {"op": "c_rebuild", "probe": pi, "def": _gen_one(rng, comp, urefs, sc_in_arrays, probes[pi]["name"])}
+
+
+def run_rebuild(step):
+    from .objsim import Skip
+
+    w, op, res = step.w, step.op, step.res
+    probes = cur_probes(w)
+    if op["probe"] >= len(probes) or probes[op["probe"]]["name"] != op["def"]["name"]:
+        raise Skip()
+    src, pk = build(w, [op["def"]])
+    ctx = w.cctx
+    old = type(ctx)._compile_kernels_info
+    type(ctx)._compile_kernels_info = False
+    try:
+        ctx.add_kernels(sources=[src], kernels=pk, extra_compile_args=("-O0", "-Wno-unused-function"), extra_link_args=("-O0",))
+    except Exception as e:
+        step.outcome = "raised:" + exc_sig(e)
+        step.viol("C14", "accessor_build_failed", ["rebuild", exc_sig(e)], f"{type(e).__name__}: {str(e)[-800:]}")
+        return
+    finally:
+        type(ctx)._compile_kernels_info = old
+    probes[op["probe"]] = op["def"]
+    res.fault("kernel_name_registered_again")
 
 
 def _lit(t, hexv):
@@ -151,7 +198,7 @@ def _objs_of(w, t):
 
 def gen_call(gs, w):
     rng = gs.rng
-    probes = w.spec["c"].get("probes") or []
+    probes = cur_probes(w)
     if not probes:
         return None
     order = list(range(len(probes)))
@@ -218,6 +265,9 @@ def gen_call(gs, w):
                     # the declared element type in the other byte order: same name, same width, other element type
                     op["other"] = p["args"][j]["t"]
                     op["swapped"] = True
+                elif rng.random() < 0.3:
+                    # element types outside the ten the library knows (some as wide as the declared one)
+                    op["exotic"] = rng.choice(["float16", "bool", "S4", "U1", "S8", "V8", "S2", "V4", "S1", "complex64", "datetime64[s]", "timedelta64[s]", "longdouble"])
                 return op
         return {"op": "c_call", "probe": pi, "vals": vals, "bad": bad, "which_name": rng.randrange(8)}
     return None
@@ -243,7 +293,7 @@ def run_call(step):
 
     w, op, res = step.w, step.op, step.res
     schema = w.schema
-    probes = w.spec["c"].get("probes") or []
+    probes = cur_probes(w)
     if op["probe"] >= len(probes):
         raise Skip()
     p = probes[op["probe"]]
@@ -310,6 +360,9 @@ def run_call(step):
                     if op.get("swapped"):
                         odt = odt.newbyteorder()
                         res.probe("c_call_refusal_byte_swapped_array")
+                    if op.get("exotic"):
+                        odt = np.dtype(op["exotic"])
+                        res.probe("c_call_refusal_exotic_element_type")
                     base = np.zeros(len(base) + 4, dtype=odt)
                 arr = base[nd["start"] :: nd["step"]][: nd["n"]]
                 if nd.get("two_d") and len(arr) >= 2 and len(arr) % 2 == 0:
@@ -400,7 +453,7 @@ def run_call(step):
             res.probe("c_call_refused_" + bad)
             return
         step.outcome = "accepted"
-        step.viol("C17", "invalid_call_not_refused", [bad] + (["byte_swapped"] if op.get("swapped") else []), f"{p['name']} called with {bad} arguments did not raise")
+        step.viol("C17", "invalid_call_not_refused", [bad] + (["byte_swapped"] if op.get("swapped") else []) + ([str(op["exotic"])] if op.get("exotic") else []), f"{p['name']} called with {bad} arguments did not raise")
         return
     # ---- the real call (buffers may have been relocated since the objects were made)
     before = {id(b): seams.raw_bytes(b) for b in w.bufs}
